@@ -73,9 +73,11 @@ func cmdSigs() int {
 		if fn == nil || len(fn.Blocks) == 0 {
 			continue
 		}
-		if s := localSigs(fn); len(s) > 0 {
-			all[name] = s
+		s := localSigs(fn)
+		if s == nil {
+			s = map[string][]string{}
 		}
+		all[name] = s // every function that exists on the unchanged tree is listed, also without locals
 	}
 	b, _ := json.MarshalIndent(all, "", " ")
 	if err := os.WriteFile(filepath.Join(verifDir(), "localsigs.json"), append(b, '\n'), 0o644); err != nil {
@@ -135,4 +137,13 @@ func (fx *fnExec) renamedLocal(fn *ssa.Function, name string) (string, bool) {
 		return "", false // the candidate is a name the contract author already knew: not a renaming
 	}
 	return found, true
+}
+
+// knownFunction: the function existed (under this name) when localsigs.json was generated.
+func knownFunction(name string) bool {
+	if savedSigs == nil {
+		return true // no record: treat everything as known (no inline fallback)
+	}
+	_, ok := savedSigs[name]
+	return ok
 }
